@@ -317,6 +317,9 @@ func genInboxF(r *rng, ty string, k int, focus bool) *scenario {
 		if r.chance(1, 3) { // the same target named twice
 			targets = append(targets, targets[0])
 		}
+		if focus && k%6 == 4 { // the target given as an embedded copy of an owned collection, with a member list of the peer's making
+			targets[0] = jmap{"type": "Collection", "id": local + "/cols/1", "items": []interface{}{remote + "/planted/1", remote + "/planted/2"}}
+		}
 		act["object"] = one(objs)
 		act["target"] = one(targets)
 		if r.chance(1, 10) && !focus {
@@ -333,7 +336,11 @@ func genInboxF(r *rng, ty string, k int, focus bool) *scenario {
 		act["object"] = one(objs)
 	case "Undo":
 		var objs []interface{}
-		for i := 0; i < 1+r.intn(2); i++ {
+		nundo := 1 + r.intn(2)
+		if focus && k%3 == 1 {
+			nundo = 2
+		}
+		for i := 0; i < nundo; i++ {
 			lid := fmt.Sprintf("%s/likes/%d-%d", remote, k, i)
 			actors := []interface{}{sender}
 			switch r.intn(4) {
@@ -341,6 +348,13 @@ func genInboxF(r *rng, ty string, k int, focus bool) *scenario {
 				actors = []interface{}{actorID(remote, "zed")}
 			case 2:
 				actors = append(actors, actorID(remote, "erin"))
+			}
+			if focus && k%3 == 1 { // two undone activities: the first by someone else, the last the sender's own
+				if i == 0 {
+					actors = []interface{}{actorID(remote, "zed")}
+				} else {
+					actors = []interface{}{sender}
+				}
 			}
 			w.Remote[lid] = remoteDoc{Kind: "doc", Doc: jmap{"@context": asCtx, "type": "Like", "id": lid, "actor": one(actors), "object": local + "/notes/1"}}
 			if r.chance(1, 2) {
@@ -512,6 +526,20 @@ func genOutbox(r *rng, ty string, k int) *scenario {
 		cfg.Federating = false
 	}
 	randomWrapCfg(r, &cfg, ty, false)
+	{ // callbacks the application supplied for other types leave this type's default alone
+		others := []string{"Update", "Create", "Delete", "Add", "Remove", "Like", "Follow", "Undo", "Block"}
+		o1, o2 := others[k%len(others)], others[(k/3+4)%len(others)]
+		me := ty
+		if ty == "Note" || ty == "CreateBig" {
+			me = "Create"
+		}
+		if o1 != me && k%2 == 0 {
+			cfg.SocOther = append(cfg.SocOther, o1)
+		}
+		if o2 != me && o2 != o1 && k%3 == 0 {
+			cfg.SocWrapped = append(cfg.SocWrapped, o2)
+		}
+	}
 	alice := actorID(local, "alice")
 	note := func(i int) jmap {
 		n := jmap{"type": "Note", "content": fmt.Sprintf("post %d-%d", k, i)}
@@ -685,6 +713,9 @@ func genOutbox(r *rng, ty string, k int) *scenario {
 		if !cfg.Federating {
 			sc.Cfg.Federating = true
 		}
+		if k%3 == 1 { // a Federating-only actor: no Social callbacks, the value goes out as wrapped
+			sc.Cfg.Social = false
+		}
 	}
 	return sc
 }
@@ -716,6 +747,40 @@ func genAgain(r *rng, k int) *scenario {
 		second.Path = "/users/bob/inbox"
 	}
 	second.Pre = first
+	switch k % 7 {
+	case 5: // two Accepts (different activities) of one stored Follow
+		fid := fmt.Sprintf("%s/follows/again-%d", local, k)
+		w.Store[fid] = jmap{"@context": asCtx, "type": "Follow", "id": fid, "actor": actorID(local, "alice"), "object": sender}
+		w.Owned[fid] = true
+		acc := func(i int) jmap {
+			return jmap{"@context": asCtx, "type": "Accept", "id": fmt.Sprintf("%s/activities/again-accept-%d-%d", remote, k, i), "actor": sender,
+				"object": jmap{"type": "Follow", "id": fid, "actor": actorID(local, "alice"), "object": sender}}
+		}
+		second = inboxScenario("again:accept-twice", w, cfg, acc(1))
+		second.Pre = inboxScenario("again:first", w, cfg, acc(0))
+	case 6: // two deliveries from two outboxes through one actor value: each excludes its own sender's inbox
+		mk := func(owner string, i int) *scenario {
+			b := jmap{"@context": asCtx, "type": "Like", "actor": actorID(local, owner), "object": fmt.Sprintf("%s/notes/%d", remote, 10+i),
+				"to": []interface{}{actorID(local, "alice"), actorID(local, "bob"), pick(r, remoteActors)}}
+			sc := outboxScenario("again:two-outboxes", w, cfg, b)
+			sc.Path = "/users/" + owner + "/outbox"
+			sc.Entry = "send"
+			sc.Send = b
+			sc.Body = nil
+			return sc
+		}
+		w.InboxForActor[actorID(local, "alice")] = inboxOf(actorID(local, "alice"))
+		w.InboxForActor[actorID(local, "bob")] = inboxOf(actorID(local, "bob"))
+		second = mk("alice", 1)
+		second.Pre = mk("bob", 0)
+	case 4: // two GETs, the clock of the first ahead of the second's: each response carries its own Date
+		g := genGet(r, []string{"inbox", "outbox", "handler"}[k%3], k)
+		g.Family = "again:get-twice"
+		pre := *g
+		pre.ClockDelta = int64(1 + r.intn(3))
+		g.Pre = &pre
+		second = g
+	}
 	return second
 }
 
@@ -808,6 +873,9 @@ func genGet(r *rng, kind string, k int) *scenario {
 	n := r.intn(12)
 	for i := 0; i < n; i++ {
 		id := fmt.Sprintf("%s/activities/%d", remote, r.intn(6))
+		if r.chance(1, 4) { // ids that differ only in the case of their path are different ids
+			id = remote + "/activities/" + pick(r, []string{"Zm9vYmFy", "zm9vYmFy", "ZM9VYMFY"})
+		}
 		if r.chance(1, 3) {
 			items = append(items, jmap{"type": "Like", "id": id, "actor": pick(r, remoteActors), "object": local + "/notes/1"})
 		} else {
@@ -831,6 +899,10 @@ func genGet(r *rng, kind string, k int) *scenario {
 		if r.chance(1, 4) {
 			id := local + "/tomb/1"
 			w.Store[id] = jmap{"@context": asCtx, "type": "Tombstone", "id": id, "formerType": "Note", "deleted": "2020-01-01T00:00:00Z"}
+			if r.chance(1, 2) { // a Tombstone that kept hidden recipients
+				w.Store[id]["bto"] = actorID(remote, "carol")
+				w.Store[id]["bcc"] = []interface{}{actorID(remote, "dave"), jmap{"type": "Person", "id": actorID(remote, "erin")}}
+			}
 			if r.chance(1, 2) { // a Tombstone under several type names
 				w.Store[id]["type"] = []interface{}{"Tombstone", "ext:Archived"}
 			}
@@ -841,7 +913,10 @@ func genGet(r *rng, kind string, k int) *scenario {
 			inner := jmap{"type": "Note", "id": local + "/notes/x", "content": "x", "bto": actorID(remote, "carol"), "bcc": []interface{}{actorID(remote, "dave"), actorID(remote, "erin")}}
 			mid := jmap{"type": "Create", "id": local + "/activities/mid", "actor": alice, "object": inner, "bcc": actorID(remote, "erin")}
 			w.Store[id] = jmap{"@context": asCtx, "type": "Announce", "id": id, "actor": alice, "object": []interface{}{mid, local + "/notes/1"}, "bto": actorID(remote, "carol"), "to": public}
-			if r.chance(1, 2) { // an IRI before the embedded values
+			if r.chance(1, 3) { // nesting through a value that is no activity
+				w.Store[id] = jmap{"@context": asCtx, "type": "Offer", "id": id, "actor": alice, "to": public,
+					"object": jmap{"type": "Relationship", "id": local + "/rel/1", "subject": alice, "bcc": actorID(remote, "erin"), "object": inner}}
+			} else if r.chance(1, 2) { // an IRI before the embedded values
 				w.Store[id]["object"] = []interface{}{local + "/notes/2", mid, jmap{"type": "Note", "id": local + "/notes/y", "bcc": actorID(remote, "dave")}}
 			}
 			sc.Path = "/activities/served"
@@ -886,7 +961,7 @@ func gateScenarios(r *rng, sample int) []*scenario {
 			if proto == "none" && !(entry == "postinbox" || entry == "postoutbox") {
 				continue // the GET entry points of a custom actor are the application's delegate
 			}
-			for _, auth := range []string{"ok", "denied", "error"} {
+			for _, auth := range []string{"ok", "denied", "error", "errortrue"} {
 				for _, block := range []string{"no", "yes", "error"} {
 					if entry != "postinbox" && block != "no" {
 						continue
@@ -951,6 +1026,15 @@ func gateScenarios(r *rng, sample int) []*scenario {
 	}
 	// covering sample: every value of every dimension appears; the rest random
 	var out []*scenario
+	for _, sc := range all { // always: wrong method x ActivityPub content type x disabled protocol, and (true, error) authentication
+		wrongMethodDisabled := sc.Method != "POST" && sc.ContentType == apContentType && ((sc.Entry == "postinbox" && !sc.Cfg.Federating) || (sc.Entry == "postoutbox" && !sc.Cfg.Social)) && sc.Cfg.Auth == "ok" && sc.Body != nil && sc.Body["type"] == "Like"
+		authTrueErr := sc.Cfg.Auth == "errortrue" && sc.Method == map[string]string{"postinbox": "POST", "postoutbox": "POST", "getinbox": "GET", "getoutbox": "GET", "handler": "GET"}[sc.Entry] &&
+			(sc.ContentType == apContentType || sc.Accept == apContentType) && sc.Cfg.Social && sc.Cfg.Federating && len(sc.Cfg.Blocked) == 0 && !sc.Cfg.BlockError && (sc.Body == nil || sc.Body["type"] == "Like" || sc.Body["type"] == "Note")
+		if wrongMethodDisabled || authTrueErr {
+			sc.World = baseWorld(r)
+			out = append(out, sc)
+		}
+	}
 	step := len(all) / sample
 	if step < 1 {
 		step = 1
@@ -1476,6 +1560,11 @@ func runForward(r *rng, k int) (scs []*scenario, ress []runResult) {
 		return n
 	}
 	first := build(0)
+	if s, isIRI := first.(string); isIRI && k%5 == 1 { // a sibling on the same host that cannot be fetched, named first
+		dead := fmt.Sprintf("%s/chain/%d/dead", remote, k)
+		w.Remote[dead] = remoteDoc{Kind: "unreachable"}
+		first = []interface{}{dead, s}
+	}
 	if act["type"] == "Update" {
 		act["object"] = jmap{"type": "Note", "id": fmt.Sprintf("%s/notes/u%d", remote, k), "content": "u", "inReplyTo": first}
 	} else if r.chance(1, 2) {
